@@ -12,7 +12,7 @@
    the command.  A failed comparison does not stop validation: a BAD line is
    printed (one per failed predicate), the model re-synchronises on the observed
    state and the rest of the trace is still checked.                             *)
-EXTENDS Extract, Json, IOUtils
+EXTENDS SchedExt, Json, IOUtils
 
 Rec == ndJsonDeserialize(IOEnv.TRACE)
 
@@ -21,13 +21,19 @@ VARIABLES l,
           declf,    \* indices of the functions of prog.funcs declared right now
           cur,      \* number of the e-graph (slot) the EggAbs variables describe
           other,    \* the other slot (after a clone): [rows, active, stack, declf, tainted] or [none |-> TRUE]
-          cmpst     \* compare databases (FALSE for encodings whose tables are not the user's tables)
+          cmpst,    \* compare databases (FALSE for encodings whose tables are not the user's tables)
+          sch,      \* custom-scheduler bookkeeping of the current e-graph (SchedExt)
+          prev      \* the previous cmd event of this session (the raw pre-state of the next command)
+
+Bad(code) == PrintT(<<"BAD", l, code>>)
 
 \* ---------------------------------------------------------------- AbsOf
 CanonFn(ev) == [p \in {ev.canon[i] : i \in 1 .. Len(ev.canon)} |-> p[2]]
 CanonOf(ev, id) ==
-  LET hit == {ev.canon[i] : i \in {j \in 1 .. Len(ev.canon) : ev.canon[j][1] = id}} IN
-  IF hit = {} THEN id ELSE (CHOOSE p \in hit : TRUE)[2]
+  LET hit == {ev.canon[i] : i \in {j \in 1 .. Len(ev.canon) : ev.canon[j][1] = id}}
+      fhit == IF Has(ev, "fcanon") THEN {ev.fcanon[i] : i \in {j \in 1 .. Len(ev.fcanon) : ev.fcanon[j][1] = id}} ELSE {}
+  IN IF hit # {} THEN (CHOOSE p \in hit : TRUE)[2]
+     ELSE IF fhit # {} THEN (CHOOSE p \in fhit : TRUE)[2] ELSE id
 
 ContOf(ev, cid) == CHOOSE c \in {ev.cont[i] : i \in 1 .. Len(ev.cont)} : c.id = cid
 RECURSIVE RawVal(_, _)
@@ -62,7 +68,54 @@ RawCongruenceClosed(ev) == Functional(RawRows(ev))
 \* w: the e-graph the command is issued on: [rows, active, stack, declf, tainted]
 Me == [rows |-> rows, active |-> active, stack |-> stack, declf |-> declf, tainted |-> tainted]
 
-Expect(w, c) ==
+\* ---------------------------------------------------------------- custom scheduler steps (C18)
+\* ev.sched = << [r |-> rule index, vars |-> <<head variable numbers>>, offered |-> << <<raw value..>> .. >>,
+\*               chosen |-> <<0-based indices>>, seek |-> 0/1] .. >>     (recorded by the instrumented scheduler)
+\* raw ids are named in the PRE-state: the database logged by the previous command
+PreNames == IF Has(prev, "tabs") THEN LeastNames(RawRows(prev)) ELSE [x \in {} |-> <<>>]
+PreNameOf(nm, v) ==
+  IF v[1] = 0 THEN <<0, v[2]>>
+  ELSE LET id == <<-2, CanonOf(prev, v[2])>> IN IF id \in DOMAIN nm /\ nm[id] # <<>> THEN nm[id] ELSE <<>>
+OfferedOf(nm, q) == [i \in 1 .. Len(q.offered) |-> [j \in 1 .. Len(q.offered[i]) |-> PreNameOf(nm, q.offered[i][j])]]
+ChosenIdx(q) == {q.chosen[i] + 1 : i \in 1 .. Len(q.chosen)}
+SStepTodo(ev) ==
+  LET nm == PreNames IN
+  UNION {LET q == ev.sched[k]
+             off == OfferedOf(nm, q)
+         IN {<<q.r, SubOf(off[i], q.vars)>> : i \in ChosenIdx(q) \cap (1 .. Len(off))} : k \in 1 .. Len(ev.sched)}
+SStepExpect(w, ev) == StepResult(w.rows, SStepTodo(ev))
+
+\* the four obligations of one step, per rule (evaluated on the pre-state w.rows)
+JudgeSStep(w, ev) ==
+  LET nm == PreNames IN
+  \A k \in 1 .. Len(ev.sched) :
+    LET q == ev.sched[k]
+        off == OfferedOf(nm, q)
+        O == {off[i] : i \in 1 .. Len(off)}
+        P == ProjMatches(w.rows, q.r, q.vars)
+        rsd == ResidOf(sch, q.r)
+    IN /\ (\E t \in O : ~Known(t)) => Bad("sched-offered-an-id-unknown-to-the-database")
+       /\ (\E t \in O : Known(t) /\ t \notin P \cup rsd) => Bad("sched-offered-a-match-that-does-not-satisfy-the-body")
+       /\ (rsd \ O # {}) => Bad("sched-unchosen-match-was-dropped")
+       /\ (SeekOf(sch, q.r) /\ P \ (O \cup AppliedOf(sch, q.r)) # {}) => Bad("sched-match-never-offered")
+       /\ (\E i \in ChosenIdx(q) : i > Len(off)) => Bad("sched-harness-chose-out-of-range")
+
+\* bookkeeping after the step (names of the pre-state; renamed with every command below)
+SchAfterStep(ev) ==
+  LET nm == PreNames
+      upd(f, r, v) == (r :> v) @@ f
+      RECURSIVE Fold(_, _)
+      Fold(k, s) ==
+        IF k > Len(ev.sched) THEN s
+        ELSE LET q == ev.sched[k]
+                 off == OfferedOf(nm, q)
+                 ch == ChosenIdx(q)
+             IN Fold(k + 1, [s EXCEPT !.resid = upd(@, q.r, {off[i] : i \in (1 .. Len(off)) \ ch}),
+                                      !.applied = upd(@, q.r, AppliedOf(s, q.r) \cup {off[i] : i \in ch \cap (1 .. Len(off))}),
+                                      !.seek = upd(@, q.r, q.seek = 1)])
+  IN Fold(1, sch)
+
+Expect(w, c, ev) ==
   IF c.k = "ins" THEN CmdIns(w.rows, c)
   ELSE IF c.k = "union" THEN CmdUnion(w.rows, c)
   ELSE IF c.k = "set" THEN CmdSet(w.rows, c)
@@ -75,6 +128,7 @@ Expect(w, c) ==
         cls == LookG(x.rows, c.t)
         mc == MinCost(x.rows)
     IN [rows |-> x.rows, ok |-> (c.n > 0 \/ (cls \in DOMAIN mc /\ mc[cls] # Undef))]   \* variants of a class without a term: empty list
+  ELSE IF c.k = "sstep" THEN SStepExpect(w, ev)
   ELSE IF c.k = "pop" THEN [rows |-> IF Len(w.stack) > 0 THEN w.stack[Len(w.stack)].rows ELSE w.rows, ok |-> Len(w.stack) > 0]
   ELSE IF c.k = "rule" THEN [rows |-> w.rows, ok |-> c.r \notin w.active]
   ELSE IF c.k = "fdecl" THEN [rows |-> w.rows, ok |-> c.f \notin w.declf]
@@ -83,7 +137,7 @@ Expect(w, c) ==
 
 \* the e-graph after the command (the observed database is adopted: re-synchronisation)
 After(w, c, ev, obs) ==
-  IF ev.res # "ok" THEN [w EXCEPT !.rows = obs, !.tainted = w.tainted \/ c.k = "run"]
+  IF ev.res # "ok" THEN [w EXCEPT !.rows = obs, !.tainted = w.tainted \/ c.k \in {"run", "sstep"}]
   ELSE IF c.k = "pop" /\ Len(w.stack) > 0 THEN
     LET top == w.stack[Len(w.stack)] IN
     [rows |-> obs, active |-> top.active, stack |-> SubSeq(w.stack, 1, Len(w.stack) - 1), declf |-> top.declf, tainted |-> top.tainted]
@@ -92,7 +146,6 @@ After(w, c, ev, obs) ==
   ELSE IF c.k = "fdecl" THEN [w EXCEPT !.rows = obs, !.declf = w.declf \cup {c.f}]
   ELSE [w EXCEPT !.rows = obs]
 
-Bad(code) == PrintT(<<"BAD", l, code>>)
 
 \* C07: what a successful (extract t [n]) returned, against the reference MinCost
 OutOf(ev, kind) == LET hit == {ev.outs[i] : i \in {j \in 1 .. Len(ev.outs) : ev.outs[j].k = kind}} IN
@@ -130,7 +183,7 @@ JudgeExtract(ev, exp) ==
 \* required to be consistent (raw invariants, no panic), not equal to the naive
 \* re-evaluation; all other commands are still checked exactly.
 Judge(w, ev, exp, obs) ==
-  LET exact == ~(w.tainted /\ ev.c.k = "run") IN
+  LET exact == ~(w.tainted /\ ev.c.k \in {"run", "sstep"}) /\ ~(ev.c.k = "sstep" /\ ~sch.ok) IN
   /\ (ev.res = "panic") => Bad("panicked")
   /\ (cmpst /\ ~RawKeysUnique(ev)) => Bad("raw-duplicate-key")
   /\ (cmpst /\ ~RawIdsCanonical(ev)) => Bad("raw-noncanonical-id")
@@ -142,6 +195,7 @@ Judge(w, ev, exp, obs) ==
         (Bad("state-mismatch") /\ PrintT(<<"DIFF", l, ToJson([missing |-> exp.rows \ obs, extra |-> obs \ exp.rows])>>))
   /\ (cmpst /\ ~exp.ok /\ ev.c.k \in {"check", "bad", "probe", "rule", "fdecl", "pop"} /\ obs # w.rows) => Bad("state-changed-by-rejected-command")
   /\ (cmpst /\ ev.c.k = "extract" /\ exp.ok /\ ev.res = "ok") => JudgeExtract(ev, exp)
+  /\ (cmpst /\ ev.c.k = "sstep" /\ sch.ok /\ ~w.tainted /\ Has(ev, "sched")) => JudgeSStep(w, ev)
   /\ (cmpst /\ exact /\ ev.res = "ok" /\ ev.c.k = "run" /\ Has(ev, "upd") /\ exp.ok /\ ev.upd # (IF exp.upd THEN 1 ELSE 0)) => Bad("updated-flag")
 
 NoOther == [none |-> TRUE]
@@ -154,12 +208,13 @@ TDecl ==
                ELSE 1 .. Len(Rec[l].prog.funcs))
   /\ cmpst' = (IF Has(Rec[l], "cmp") THEN Rec[l].cmp = 1 ELSE TRUE)
   /\ rows' = {} /\ stack' = <<>> /\ res' = "ok" /\ tainted' = FALSE /\ cur' = 0 /\ other' = NoOther
+  /\ sch' = Sch0 /\ prev' = [none |-> TRUE]
 
 \* the harness cloned the current e-graph into the other slot
 TClone ==
   /\ l <= Len(Rec) /\ Rec[l].e = "clone" /\ l' = l + 1
   /\ other' = Me
-  /\ UNCHANGED <<vars, tainted, declf, cur, cmpst>>
+  /\ UNCHANGED <<vars, tainted, declf, cur, cmpst, sch, prev>>
 
 TCmd ==
   /\ l <= Len(Rec) /\ Rec[l].e = "cmd" /\ l' = l + 1
@@ -168,7 +223,7 @@ TCmd ==
          slot == IF Has(ev, "slot") THEN ev.slot ELSE cur
          w == IF slot = cur THEN Me ELSE other           \* the e-graph this command runs on
          idle == IF slot = cur THEN other ELSE Me          \* the one that must not notice
-         exp == Expect(w, c)
+         exp == Expect(w, c, ev)
          obs == IF cmpst THEN AbsOf(ev) ELSE exp.rows
          w2 == After(w, c, ev, obs)
      IN /\ Judge(w, ev, exp, obs)
@@ -176,16 +231,20 @@ TCmd ==
               /\ Canonize(RawRows([tabs |-> ev.otabs, canon |-> ev.ocanon, cont |-> ev.ocont])) # idle.rows) => Bad("clone-interference")
         /\ res' = ev.res /\ prog' = prog /\ cmpst' = cmpst /\ cur' = slot /\ other' = idle
         /\ rows' = w2.rows /\ active' = w2.active /\ stack' = w2.stack /\ declf' = w2.declf /\ tainted' = w2.tainted
+        /\ prev' = ev
+        /\ sch' = IF ~cmpst \/ (DOMAIN sch.resid = {} /\ c.k # "sstep") THEN sch
+                  ELSE IF c.k = "sstep" /\ (ev.res # "ok" \/ ~Has(ev, "sched")) THEN [sch EXCEPT !.ok = FALSE]
+                  ELSE ReNameSch(w2.rows, IF c.k = "sstep" THEN SchAfterStep(ev) ELSE sch)
 
 \* the harness could not dump the state after a command (the dump itself panicked)
 TAbort ==
   /\ l <= Len(Rec) /\ Rec[l].e = "abort" /\ l' = l + 1
   /\ Bad("state-unreadable-after-command")
-  /\ UNCHANGED <<vars, tainted, declf, cur, other, cmpst>>
+  /\ UNCHANGED <<vars, tainted, declf, cur, other, cmpst, sch, prev>>
 
 TraceInit == /\ l = 1 /\ prog = [funcs |-> <<>>, rules |-> <<>>, rsets |-> <<>>]
              /\ rows = {} /\ active = {} /\ stack = <<>> /\ res = "ok" /\ tainted = FALSE
-             /\ declf = {} /\ cur = 0 /\ other = NoOther /\ cmpst = TRUE
+             /\ declf = {} /\ cur = 0 /\ other = NoOther /\ cmpst = TRUE /\ sch = Sch0 /\ prev = [none |-> TRUE]
 
 \* Large databases (thousands of rows): only the raw invariants of C04 are evaluated, in
 \* linear / n log n time (no least-term renaming): every logged id canonical, keys unique,
@@ -201,8 +260,8 @@ TRaw ==
             /\ (~RawIdsCanonical(ev)) => Bad("raw-noncanonical-id")
             /\ (~RawKeysUnique(ev)) => Bad("raw-duplicate-key")
             /\ (RawIdsCanonical(ev) /\ ~RawContentsUnique(ev)) => Bad("raw-containers-not-hash-consed")
-  /\ UNCHANGED <<vars, tainted, declf, cur, other, cmpst>>
+  /\ UNCHANGED <<vars, tainted, declf, cur, other, cmpst, sch, prev>>
 
 TraceNext == TDecl \/ TCmd \/ TClone \/ TAbort \/ TRaw
-TraceSpec == TraceInit /\ [][TraceNext]_<<vars, l, tainted, declf, cur, other, cmpst>>
+TraceSpec == TraceInit /\ [][TraceNext]_<<vars, l, tainted, declf, cur, other, cmpst, sch, prev>>
 =============================================================================
